@@ -1085,6 +1085,14 @@ void run_any(const std::string & tn, const Alphabet<M> & A, bool do_vv = true)
       c.require("copy: behaves identically (rplus)", fingerprint(smooth::rplus(cp, a).template get<M>()) == fpa);
       cp.template get<M>() = other;  // write through the copy
       c.require("copy: overwritten copy took the new value", fingerprint(cp.template get<M>()) == fpo);
+      // the value written through get<M>() may have another run-time size: dof and the tangent lengths follow the value held now
+      {
+        const Eigen::Index dn = Mod<M>::rdof(other);
+        const Any ao(other);
+        const Eigen::VectorXd z2 = smooth::rminus(cp, ao);
+        c.require("copy: after writing a value through get<M>(), dof is the dof of the value held now", smooth::dof(cp) == dn && z2.size() == dn);
+        c.judge("copy: rminus(new value, new value)=0", vec_max(z2) / std::max(1.0, Mod<M>::mag(other)), T::Tzero);
+      }
       c.require("copy: original untouched by writing the copy", fingerprint(am.template get<M>()) == fp);
     }
     {
